@@ -8,7 +8,7 @@ THEOREMS = ["C18_refines_disk", "C18_visible_after_close", "C18_visible_after_pa
             "C18_nonexclusive", "C18_unrepaired_refuted", "C18_unrepaired_pack_refuted"]
 MODEL_FILES = ["ObjVis.v"]
 MODELLED = ("storage/filesystem/dotgit/dotgit.go: NewObject, NewObjectPack, cleanObjectList/genObjectList/hasObject, "
-            "cleanPackList/genPackList/hasPack, ObjectPacks, Objects, ObjectsWithPrefix, Object/ObjectStat gates, packHandle catalog, "
+            "forgetPackList/genPackList/hasPack (NewObjectPack forgets the list and keeps the handles since the C23 repair), ObjectPacks, Objects, ObjectsWithPrefix, Object/ObjectStat gates, packHandle catalog, "
             "ObjectDelete; dotgit/writers.go: ObjectWriter.Close/save, PackWriter.Close/save (incl. nothing-written and "
             "already-present packs) and Notify; storage/filesystem/object.go: requireIndex/populateIndex, Reindex, packfileWriter Notify, "
             "HasEncodedObject, EncodedObjectSize, EncodedObject, IterEncodedObjects, HashesWithPrefix routing (Model/ObjVis.v, sequential "
